@@ -6,7 +6,8 @@ From Coq Require Import List ZArith Reals Lra Lia.
 From D3 Require Import Base.Ops Base.Vec Model.TetSym Gen.TetTables Model.TetMesh Model.TetMeshProc Checker.TetMesh
                        Proofs.TetMeshBase Proofs.TetMeshBox Proofs.TetMeshCyl
                        Proofs.TetMeshIcoKey Proofs.TetMeshIcoPure Proofs.TetMeshIco Proofs.TetMeshHelpers
-                       Proofs.TetMeshCaps Proofs.TetMeshCurved Model.TetMeshBody Proofs.TetMeshBodyProofs.
+                       Proofs.TetMeshCaps Proofs.TetMeshCurved Model.TetMeshBody Proofs.TetMeshBodyProofs
+                       Proofs.TetMeshBoxCom.
 Import ListNotations.
 Local Open Scope R_scope.
 
@@ -157,6 +158,16 @@ Theorem C17_helper_box_volume : forall sx sy sz, 0 < sx -> 0 < sy -> 0 < sz ->
   sumR (mesh_volumes (O := ROps) (mesh_tetpts (mverts m) (mtets m))) = sx * sy * sz.
 Proof. exact box_mesh_helper_volume. Qed.
 
+(** center_of_mass_tetrahedral_mesh of the box and cube meshes is the centre of the box, all sizes *)
+Theorem C17_helper_box_com : forall sx sy sz, 0 < sx -> 0 < sy -> 0 < sz ->
+  let m := box_mesh (O := ROps) sx sy sz in
+  mesh_com (O := ROps) (mesh_tetpts (mverts m) (mtets m)) = V 0 0 0.
+Proof. exact box_mesh_com_centre. Qed.
+Theorem C17_helper_cube_com : forall size, 0 < size ->
+  let m := cube_mesh (O := ROps) size in
+  mesh_com (O := ROps) (mesh_tetpts (mverts m) (mtets m)) = V 0 0 0.
+Proof. exact cube_mesh_com_centre. Qed.
+
 Theorem C17_helper_aabbs : forall a b c d : V3 R,
   let '(bx, by_, bz) := tet_aabb (O := ROps) (a, b, c, d) in
   (forall p, p = a \/ p = b \/ p = c \/ p = d ->
@@ -257,6 +268,8 @@ Print Assumptions C17_subdivision_preserves.
 Print Assumptions C17_helper_volumes.
 Print Assumptions C17_helper_volumes_sum.
 Print Assumptions C17_helper_box_volume.
+Print Assumptions C17_helper_box_com.
+Print Assumptions C17_helper_cube_com.
 Print Assumptions C17_helper_aabbs.
 Print Assumptions C17_helper_com.
 Print Assumptions C17_tolerances_pinned.
